@@ -95,6 +95,7 @@ type limCase struct {
 	Timed    bool // after the first Wait() the idle Limiter is also waited on with a timeout (returns at once)
 	Twin     bool // a second Limiter with the same limit argument is kept saturated for the whole scenario
 	WaitForm int  // how "Wait() without timeout" is spelled: 0 l.Wait(), 1 l.Wait(empty...) with an empty non-nil slice, 2 with a nil slice
+	Churn    int  // this many functions that return at once are pushed through the Limiter before the final saturation probe (counters inside the Limiter must not drift)
 	Expire   bool // (not under the race detector) a timed Wait expires while functions run; after they finished the Limiter is used again
 }
 
@@ -104,6 +105,7 @@ func gen(t *rapid.T) (c limCase) {
 	defer func() {
 		c.Expire = rapid.IntRange(0, 2).Draw(t, "expire") == 0
 		c.WaitForm = rapid.SampledFrom([]int{0, 0, 1, 2}).Draw(t, "waitForm")
+		c.Churn = rapid.SampledFrom([]int{0, 0, 0, 0, 0, 0, 300, 300, 300, 5000, 66000, 70000}).Draw(t, "churn")
 	}()
 	n := rapid.IntRange(1, 24).Draw(t, "ntasks")
 	for i := 0; i < n; i++ {
@@ -319,6 +321,33 @@ func (w *world) waitQuiescent(total int) (submitterBlocked bool, err error) {
 			time.Sleep(50 * time.Microsecond)
 		}
 	}
+}
+
+// churnLoop submits n short functions (its name is looked up in goroutine dumps).
+func churnLoop(l *goz.Limiter, fn func(), n int, submitted *int64, done chan struct{}) {
+	defer close(done)
+	for i := 0; i < n; i++ {
+		l.Go(fn)
+		atomic.AddInt64(submitted, 1)
+	}
+}
+
+// limiterWorkers counts goroutines with a frame of package goz other than the churn submitter and the functions
+// of the twin Limiter.
+func limiterWorkers() int {
+	buf := make([]byte, 1<<20)
+	n := runtime.Stack(buf, true)
+	if n == len(buf) {
+		return 1 // truncated dump: no conclusion
+	}
+	k := 0
+	for _, g := range strings.Split(string(buf[:n]), "\n\n") {
+		if !strings.Contains(g, "golib/goz.") || strings.Contains(g, "c19.churnLoop") || strings.Contains(g, "c19.run.func") {
+			continue
+		}
+		k++
+	}
+	return k
 }
 
 // waitUntimed calls Wait without a timeout in one of its spellings.
@@ -624,6 +653,49 @@ func run(c limCase, r *pb.Rec) error {
 		}
 		r.Class("timed Wait expired while functions ran, Limiter reused after going idle")
 	}
+	if c.Churn > 0 && c.Churn <= 200000 {
+		churn := c.Churn
+		if os.Getenv("VERIF_MODE") == "race" && churn > 5000 {
+			churn = 5000 // the race detector makes goroutine starts an order of magnitude slower
+		}
+		var ran, submitted int64
+		fn := func() { atomic.AddInt64(&ran, 1) }
+		subDone := make(chan struct{})
+		go churnLoop(l, fn, churn, &submitted, subDone)
+		// Go must keep admitting: the functions return at once. If every function admitted so far has finished, no
+		// worker goroutine of the Limiter exists any more (nobody is left who could give a slot back) and the
+		// submitter still sits inside Go, the Limiter has lost its slots (state-based; time only confirms stability).
+		stuck, lastSub := 0, int64(-1)
+		for deadline := time.Now().Add(60 * time.Second); ; {
+			select {
+			case <-subDone:
+			case <-time.After(100 * time.Millisecond):
+				sub, rn := atomic.LoadInt64(&submitted), atomic.LoadInt64(&ran)
+				if sub == lastSub && rn == sub && limiterWorkers() == 0 {
+					if stuck++; stuck >= 5 {
+						return fmt.Errorf("slot leak after %d short functions on one Limiter (limit %d): all of them have finished, no worker goroutine is left, and the next Go call does not return", sub, n)
+					}
+				} else {
+					stuck = 0
+				}
+				lastSub = sub
+				if time.Now().After(deadline) {
+					return inconclusive{fmt.Sprintf("submitting %d short functions did not finish within 60s (%d submitted, %d ran)", churn, sub, rn)}
+				}
+				continue
+			}
+			break
+		}
+		churnDone := make(chan struct{})
+		go func() { waitUntimed(l, c.WaitForm); close(churnDone) }()
+		if err := awaitWait(churnDone, fmt.Sprintf("Wait() after %d short functions", churn)); err != nil {
+			return err
+		}
+		if got := atomic.LoadInt64(&ran); got != int64(churn) {
+			return fmt.Errorf("Wait() returned after %d of %d short functions had run", got, churn)
+		}
+		r.ClassIf(churn >= 65536, "more than 65536 functions completed on one Limiter before the saturation probe")
+	}
 	// phase 3: after the panics, n more gate-blocked functions must all get inside at the same time
 	base := len(c.Tasks) + extra
 	var more []func()
@@ -695,7 +767,7 @@ func describe(vs []any) string {
 func TestLimiter(t *testing.T) {
 	st := pb.Stats("limiter")
 	st.SetRule("scenarios: limit -2..6 (below 1 => 3), 1..24 functions that return / yield / park on a harness gate / panic (before or after the gate), drawn gate release order, with or without panic handler, GOMAXPROCS 1..16; the harness releases one gate at a time, each time from a quiescent state, and after Wait() submits n more parked functions that must all run concurrently; monitors: concurrency never above n, exactly-once execution, Wait() only after all finished, handler receives every panic value itself (strings, pointers by identity, runtime faults by type and message), an expired timed Wait followed by idle and reuse (plain mode), no slot leaked (state-based: submitter parked in the Limiter's channel send while fewer than n functions hold slots); schedules inside the Limiter are sampled, not owned; non-trivial = a panic followed by a saturation phase")
-	st.Require("second Limiter saturated alongside", "timed Wait on the idle Limiter", "handler checked against a fault raised by the runtime", "nil func submitted", "function ended by runtime.Goexit", "Wait called with an empty non-nil duration slice", "timed Wait expired while functions ran, Limiter reused after going idle", "saturated: submitter blocked with all slots held", "panics raised", "limit below 1 (default 3)", "panic without handler", "limit reached")
+	st.Require("second Limiter saturated alongside", "timed Wait on the idle Limiter", "handler checked against a fault raised by the runtime", "nil func submitted", "function ended by runtime.Goexit", "more than 65536 functions completed on one Limiter before the saturation probe", "Wait called with an empty non-nil duration slice", "timed Wait expired while functions ran, Limiter reused after going idle", "saturated: submitter blocked with all slots held", "panics raised", "limit below 1 (default 3)", "panic without handler", "limit reached")
 	// the default panic handler prints to stdout: keep the test output clean (swapped once, not per case)
 	if dn, err := os.OpenFile(os.DevNull, os.O_WRONLY, 0); err == nil {
 		old := os.Stdout
